@@ -525,9 +525,12 @@ KindsAgree(c, posOf) ==
 (* is_of_type / comparison tests has the canonical type).                  *)
 (***************************************************************************)
 \* Profiles: "tiny" (quick tier), "small" (thorough tier), "corr" (two tested union arguments, few
-\* atoms, larger bodies), "full" (random simulation only: every primitive of the grammar)
+\* atoms, larger bodies), "corrq" (quick-tier slice of corr: both arguments are the literal unions
+\* Literal[1, 2] / Literal['x', 'y'] passed positionally, both parameters tested by the body, no
+\* probes), "full" (random simulation only: every primitive of the grammar)
+CorrQ == Profile = "corrq"
 PickP(tiny, small, corr, full) ==
-    CASE Profile = "tiny" -> tiny [] Profile = "small" -> small [] Profile = "corr" -> corr [] Profile = "full" -> full
+    CASE Profile = "tiny" -> tiny [] Profile = "small" -> small [] Profile \in {"corr", "corrq"} -> corr [] Profile = "full" -> full
 AllTTs == { <<"L1">>, <<"Lx">>, <<"int">>, <<"str">>, <<"None">>, <<"L1", "L2">>, <<"int", "None">>, <<"L1", "None">> }
 AtomsA == PickP(
     {Cmp("a", "eq", "L1"), Oft("a", <<"int">>, TRUE), Oft("a", <<"int">>, FALSE)},
@@ -586,7 +589,7 @@ EllSig == << P("pk", "lit"), P("pk", "ell") >>
 MoreSigs == { CanonSig, EllSig, << P("pk", "req"), P("ko", "lit") >>, << P("po", "lit"), P("pk", "lit") >>,
               << P("pk", "ell"), P("va", "req") >>, << P("pk", "lit"), P("vk", "req") >> }
 BodySigs == PickP({CanonSig, EllSig}, {CanonSig, EllSig, << P("pk", "req"), P("ko", "lit") >>}, {CanonSig}, MoreSigs)
-ArgTypesA == PickP(
+ArgTypesA == IF CorrQ THEN { <<"L1", "L2">> } ELSE PickP(
     { <<"L1">>, <<"Any">>, <<"L1", "L2">>, <<"Any", "L1">> },
     { <<"L1">>, <<"Any">>, <<"L1", "L2">>, <<"L1", "Lx">>, <<"Any", "L1">>, <<"L1", "int">> },
     { <<"L1">>, <<"L1", "L2">> },
@@ -594,7 +597,7 @@ ArgTypesA == PickP(
       <<"L1", "L2">>, <<"L1", "Lx">>, <<"L1", "None">>, <<"int", "str">>, <<"int", "None">>,
       <<"L1", "int">>, <<"Any", "L1">>, <<"Any", "int">>, <<"L1", "L2", "Lx">>, <<"Any", "L1", "Lx">>,
       <<"L1", "int", "None">> })
-ArgTypesB == PickP(
+ArgTypesB == IF CorrQ THEN { <<"Lx", "Ly">> } ELSE PickP(
     { <<"Lx">>, <<"Lx", "Ly">> },
     { <<"Lx">>, <<"Lx", "Ly">> },
     { <<"Lx">>, <<"Lx", "Ly">> },
@@ -641,11 +644,12 @@ AddIf ==
     /\ UNCHANGED stage
 \* the kind probes start from their fixed three-line body
 StartProbe ==
-    /\ stage = "body" /\ case.lines = << >>
+    /\ stage = "body" /\ case.lines = << >> /\ ~CorrQ
     /\ \E x \in ProbeLits : case' = [case EXCEPT !.lines = ProbeBody(x)]
     /\ stage' = "sig"
 EndBody ==
     /\ stage = "body" /\ Complete(case.lines) /\ NIfs(case.lines) >= 1 /\ ~IsProbe(case.lines)
+    /\ (CorrQ => TypeVarsTested(case.lines) = Vars)
     /\ \E ann \in AnnChoices : case' = [case EXCEPT !.ann = ann]
     /\ stage' = "sig"
 ChooseSig ==
@@ -662,6 +666,7 @@ ChooseCall ==
     /\ \E call \in CallSpace :
          LET c2 == [case EXCEPT !.call = call] IN
          /\ CallOK(case.sig, call)
+         /\ (CorrQ => call.npos = 2 /\ call.kws = << >>)
          /\ \A v \in TypeVarsTested(case.lines) : Typed(c2, v)
          /\ (KindVarsTested(case.lines) = {} => ~call.star /\ ~call.dstar /\ call.kws \in {<< >>, <<"b">>})
          /\ case' = c2
